@@ -70,7 +70,7 @@ def obligations(tier):
         sysrename=["_exit", "read", "write", "alarm", "chdir", "time"],
         grid=[{"N": n} for n in (range(0, 11) if q else range(0, 13))],
         unwind_default=lambda p: p["N"] + 3,
-        unwind={"substdio_put": 100, "fmt_ulong": 12, "fmt_str": 8},
+        unwind={"substdio_put": 56, "strlen": 56, "fmt_ulong": 4, "fmt_str": 8},
         timeout=1200,
         functions=["qmail-qmqpd.c:main", "qmail-qmqpd.c:getlen", "qmail-qmqpd.c:getbyte", "qmail-qmqpd.c:getcomma", "qmail-qmqpd.c:getbuf",
                    "qmail-qmqpd.c:identify", "qmail-qmqpd.c:saferead", "fmt_ulong.c", "fmt_str.c", "byte_chr.c"],
@@ -83,4 +83,39 @@ def obligations(tier):
               "recipients were handed over; complete malformed frames exit 100 with nothing queued; NUL in an address => D; "
               "truncated requests queue nothing",
         expect_witnesses=qmqp_wit))
+    def qmtp_wit(p):
+        if "L" in p:
+            w = ["exit", "disconnect_after_open", "malformed_after_open", "resources"]
+            if p["L"] >= 0: w += ["accepted_K"]
+            return w
+        n, db = p["N"], p["DB"]
+        w = ["exit"]
+        if n >= 3: w.append("disconnect_after_open")
+        if n >= 3: w.append("malformed_after_open")
+        if n >= 13: w += ["accepted_K", "queue_permanent", "queue_temporary", "resources", "recipient_refused", "accepted_K_relay"]
+        return w
+    QMTP = dict(
+        progs=[Prog("qmail-qmtpd.c", sub=[(r"^main\(\)", "qmtpd_main()", 1)])],
+        repo=["fmt_ulong.c", "fmt_str.c", "stralloc_opys.c", "stralloc_opyb.c", "stralloc_pend.c", "byte_copy.c"],
+        lib=["ideal_substdio.c", "arena_stralloc.c"],
+        sysrename=["_exit", "read", "write", "alarm", "chdir", "time"],
+        timeout=1500,
+        functions=["qmail-qmtpd.c:main", "qmail-qmtpd.c:getlen", "qmail-qmtpd.c:getcomma", "qmail-qmtpd.c:saferead", "fmt_ulong.c", "fmt_str.c",
+                   "stralloc_opys.c", "stralloc_opyb.c", "stralloc_pend.c"],
+        cuts=["qmail_open/put/from/to/fail/close -> contract proved by qmail_unit", "received -> marker (received_safe)",
+              "rcpthosts -> arbitrary verdict 1/0/-1 per call, arguments checked (meaning: C08 rcpthosts_ref)"],
+        stubs=["substdio: ideal streams; read() returns the next byte, 0 after the last", "env_get: RELAYCLIENT unset or \"@r\"; control_readint: databytes = DB",
+               "control_init/qmail_open may fail; sig_*, alarm, chdir: no-ops; time(): constant", "stralloc_ready/readyplus: arena"],
+        outside=["connections longer than the grid", "a second complete package on the same connection", "write errors towards the client", "SIGALRM"])
+    obls.append(Obl("qmtpd_main", "qmtpd.c",
+        defines={"ARENA_CAP": 16, "ARENA_SLOTS": 1},
+        grid=[{"N": n, "DB": 0} for n in (range(0, 14) if q else range(0, 14))],
+        unwind_default=lambda p: p["N"] + 3,
+        unwind={"substdio_put": 72, "strlen": 72, "fmt_ulong": 4, "fmt_str": 8},
+        assumes=["the client sends exactly N arbitrary bytes and disconnects; databytes = DB; qmail-queue outcome ok/permanent/temporary; "
+                 "one write failure anywhere; RELAYCLIENT unset or set"],
+        claim="for every N-byte connection: K only after a successful close, replies exactly per recipient (K iff acceptable and queued, D for policy), "
+              "queued content = decoded body, sender, acceptable recipients (+relay suffix) in order; malformed netstrings exit 100; bad sender / "
+              "oversize => D, nothing queued; truncated packages queue nothing",
+        expect_witnesses=qmtp_wit, **QMTP))
     return obls
